@@ -135,8 +135,9 @@ def run(ctx):
     ok_to = cmpdef + '''Definition vof (r : res timepar) : res Q := bind r (fun q => Ok (tp_v q)).
 Definition ok (c : timepar * (unit_t * Q) * (unit_t * Q) * (res Q * res Q * res Q)) : bool :=
   let '(p, a, b, (r1, r2, r3)) := c in
-  let q1 := tp_to p (fst a) (Some (snd a)) in
-  andb (cmp (vof q1) r1) (andb (cmp (vof (bind q1 (fun q => tp_to q (fst b) (Some (snd b))))) r2) (cmp (vof (tp_to_parent p)) r3)).'''
+  (* the object is built and initialised first (its factor against the parent is computed): when that fails, everything derived from it fails alike *)
+  let q1 := bind (tp_values p) (fun _ => tp_to p (fst a) (Some (snd a))) in
+  andb (cmp (vof q1) r1) (andb (cmp (vof (bind q1 (fun q => tp_to q (fst b) (Some (snd b))))) r2) (cmp (vof (bind (tp_values p) (fun _ => tp_to_parent p))) r3)).'''
     bad = ctx.coq_mismatches('to', imports, 'timepar * (unit_t * Q) * (unit_t * Q) * (res Q * res Q * res Q)', terms_to, ok_to)
     for i in bad[:5]:
         ctx.broke('correspondence', f'{tp_cases[i]} .to{to_args[i][:2]}.to{to_args[i][2:]} / to_parent: model tp_to and implementation disagree')
@@ -270,10 +271,16 @@ def oracle(ctx, ss, np, rng):
             ym = np.atleast_1d(np.asarray((p * k).values, dtype=float))[0]
             if not close(ym, y * k): ctx.violation(f'{kind}*{k}: values {ym} != {y}*{k}', key)
     # rejections
-    for K, bad in [(ss.time_prob, -0.1), (ss.time_prob, 1.5), (ss.beta, 2.0), (ss.rate_prob, -1.0), (ss.time_prob, np.array([0.2, 1.2])), (ss.rate_prob, np.array([0.5, -0.5]))]:
+    rej = [(ss.time_prob, -0.1), (ss.time_prob, 1.5), (ss.beta, 2.0), (ss.rate_prob, -1.0), (ss.time_prob, np.array([0.2, 1.2])), (ss.rate_prob, np.array([0.5, -0.5]))]
+    # arrays whose valid entries all sit on the boundary (0 or 1) with one entry out of range, for every (unit, dt) side
+    for K in (ss.time_prob, ss.beta):
+        for arr in ([0.0, 1.0, 1.5], [-0.2, 0.0], [1.5], [1.0, -1e-9], [0.0, 0.0, 2.0]):
+            rej.append((K, np.array(arr)))
+    for K, bad in rej:
+      for (u_, pu_, pdt_) in (('year', 'day', 1.0), ('day', 'day', 1.0), ('week', 'year', 0.5)):
         n += 1; ctx.dist('oracle:rejection')
         try:
-            p = K(bad, unit='year', parent_unit='day', parent_dt=1.0).init()
+            p = K(bad, unit=u_, parent_unit=pu_, parent_dt=pdt_).init()
             ctx.violation(f'{K.__name__}({bad}) accepted (values {p.values})', dict(kind=K.__name__, v=str(bad)))
         except Exception:
             pass
